@@ -21,9 +21,11 @@ from harness.util import import_df, js, attempt
 
 df = import_df()
 
-DIM_POOL = ["x", "y", "z", "a", "b", "c", "r", "t", "u", "w"]
+# names that are prefixes of one another on purpose (lookups must compare whole names)
+DIM_POOL = ["x", "y", "z", "a", "b", "c", "r", "t", "u", "w", "xa", "xab", "x1", "x10", "ab"]
 UNIT_POOL = ["m", "s", "kg", "A", "K", "nm", "rad"]
-VDIM_POOL = ["p", "q", "v", "h", "e", "f"]
+VDIM_POOL = ["p", "pq", "q", "v", "h", "e", "f", "ma", "mb", "mab"]
+REPRS = ["list", "list", "tuple", "ndarray"]
 TURN = [(1, 0), (0, 1), (-1, 0), (0, -1)]
 
 
@@ -90,12 +92,20 @@ def gen_base(rng, tier, regime=None, nd=None, with_subs=None):
     pm = rng.choice([0.0, 0.2, 0.5])
     valid = [rng.random() >= pm for _ in range(ncell)]
     vdims = None
-    if nvdim > 1 and rng.random() < 0.6:
-        vdims = distinct_sample(rng, VDIM_POOL, nvdim)
+    if nvdim > 1 and rng.random() < 0.7:
+        if rng.random() < 0.3:
+            # component labels that reuse the axis names in another order (a lookup by label
+            # instead of through the mapping would pick the wrong component)
+            dn = list(dims or (["x", "y", "z"][:nd] if nd <= 3 else [f"x{i}" for i in range(nd)]))
+            rng.shuffle(dn)
+            vdims = (dn + distinct_sample(rng, VDIM_POOL, nvdim))[:nvdim]
+        else:
+            vdims = distinct_sample(rng, VDIM_POOL, nvdim)
     elif nvdim == 1 and rng.random() < 0.2:
         vdims = ["s"]
     return dict(regime=regime, pmin=[S(x) for x in flo], pmax=[S(x) for x in fhi], n=n, dims=dims, units=units,
-                subs=subs, nvdim=nvdim, dtype=dtype, vals=[S(v) for v in vals], valid=valid, vdims=vdims)
+                subs=subs, nvdim=nvdim, dtype=dtype, vals=[S(v) for v in vals], valid=valid, vdims=vdims,
+                dims_repr=rng.choice(REPRS), units_repr=rng.choice(REPRS), vdims_repr=rng.choice(REPRS))
 
 
 def eff_dims(base):
@@ -110,6 +120,13 @@ def eff_vdims(base):
     if nv == 1:
         return None
     return ["x", "y", "z"][:nv] if nv <= 3 else [f"v{i}" for i in range(nv)]
+
+
+def shuffled(rng, pairs):
+    """the dictionary insertion order is independent of the order of vdims and of the mapping"""
+    pairs = list(pairs)
+    rng.shuffle(pairs)
+    return pairs
 
 
 def gen_mapping(rng, base, a, b, want):
@@ -128,7 +145,7 @@ def gen_mapping(rng, base, a, b, want):
         avail = [d for d in dims if d not in drop]
         tgt = (rng.sample(avail, min(len(avail), nv)) + [None] * nv)[:nv]
         rng.shuffle(tgt)
-        return [[v, t] for v, t in zip(vds, tgt)]
+        return shuffled(rng, [[v, t] for v, t in zip(vds, tgt)])
     # a and b both mapped
     others = [d for d in dims if d not in (a, b)]
     rng.shuffle(others)
@@ -138,7 +155,7 @@ def gen_mapping(rng, base, a, b, want):
         tgt = [a, b] + (others[:1] if rng.random() < 0.3 else [])
     tgt = (tgt + [None] * nv)[:nv]
     rng.shuffle(tgt)
-    return [[v, t] for v, t in zip(vds, tgt)]
+    return shuffled(rng, [[v, t] for v, t in zip(vds, tgt)])
 
 
 def gen_ref(rng, base, kind):
@@ -185,6 +202,7 @@ def make_case(rng, base, level, inplace, a, b, k, refkind, mapkind):
     if has_subs and ref is not None and max(abs(fl(x)) for x in ref) > 40:
         ref = None
         refkind = "none"
+    c.update(ref_repr=rng.choice(REPRS), k_bool=bool(k in (0, 1) and rng.random() < 0.5))
     c.update(level=level, inplace=inplace, a=a, b=b, k=k, ref=ref, refkind=refkind, mapkind=mapkind,
              vmap=gen_mapping(rng, base, a, b, mapkind) if level == "field" else None)
     return c
@@ -247,9 +265,20 @@ def generate(rng, tier):
 
 
 # ------------------------------------------------------------------ implementation side
+def as_repr(xs, kind):
+    """the same sequence as list / tuple / numpy array (all documented as accepted)"""
+    if xs is None:
+        return None
+    if kind == "tuple":
+        return tuple(xs)
+    if kind == "ndarray":
+        return np.array(list(xs))
+    return list(xs)
+
+
 def build_region(c, pmin=None, pmax=None):
     return df.Region(p1=[fl(x) for x in (pmin or c["pmin"])], p2=[fl(x) for x in (pmax or c["pmax"])],
-                     dims=c["dims"], units=c["units"])
+                     dims=as_repr(c["dims"], c.get("dims_repr")), units=as_repr(c["units"], c.get("units_repr")))
 
 
 def build_mesh(c):
@@ -267,7 +296,8 @@ def build_field(c):
         arr = np.array([int(F(x)) for x in c["vals"]], dtype=int).reshape(*c["n"], c["nvdim"])
     valid = np.array(c["valid"], dtype=bool).reshape(*c["n"])
     vm = None if c.get("vmap") is None else {v: t for v, t in c["vmap"]}
-    return df.Field(m, nvdim=c["nvdim"], value=arr, valid=valid, vdims=c["vdims"], vdim_mapping=vm,
+    return df.Field(m, nvdim=c["nvdim"], value=arr, valid=valid, vdims=as_repr(c["vdims"], c.get("vdims_repr")),
+                    vdim_mapping=vm,
                     dtype=dt, unit="A/m")
 
 
@@ -277,14 +307,16 @@ def build(c, level=None):
 
 
 def call(obj, c, inplace, k=None):
-    ref = None if c["ref"] is None else [fl(x) for x in c["ref"]]
-    return obj.rotate90(c["a"], c["b"], k=c["k"] if k is None else k, reference_point=ref, inplace=inplace)
+    ref = None if c["ref"] is None else as_repr([fl(x) for x in c["ref"]], c.get("ref_repr"))
+    if k is None:
+        k = bool(c["k"]) if c.get("k_bool") else c["k"]      # True / False are the integers 1 / 0
+    return obj.rotate90(c["a"], c["b"], k=k, reference_point=ref, inplace=inplace)
 
 
 # --- observables (exact rationals)
 def obs_region(r):
     return dict(pmin=[F(float(x)) for x in r.pmin], pmax=[F(float(x)) for x in r.pmax],
-                dims=list(r.dims), units=list(r.units))
+                dims=[str(x) for x in r.dims], units=[str(x) for x in r.units])
 
 
 def obs_mesh(m):
@@ -297,8 +329,8 @@ def obs_field(f):
     return dict(mesh=obs_mesh(f.mesh), shape=list(f.array.shape),
                 vals=[F(x) for x in f.array.reshape(-1).tolist()],
                 valid=[bool(x) for x in f.valid.reshape(-1).tolist()], valid_shape=list(f.valid.shape),
-                vdims=None if f.vdims is None else list(f.vdims),
-                vmap=[[k_, v] for k_, v in vm.items()], nvdim=int(f.nvdim), unit=f.unit,
+                vdims=None if f.vdims is None else [str(x) for x in f.vdims],
+                vmap=[[str(k_), v if v is None else str(v)] for k_, v in vm.items()], nvdim=int(f.nvdim), unit=f.unit,
                 dtype=str(f.array.dtype))
 
 
@@ -471,6 +503,10 @@ def run_case(c):
     src_ip = build(c)
     st_i, res_i = attempt(lambda: call(src_ip, c, True))
     st, res = (st_i, res_i) if c["inplace"] else (st_c, res_c)
+    # k given as True / False: Python counts them as the integers 1 / 0 and so does the code; an
+    # implementation that refused Booleans would still satisfy the property (unspecified choice)
+    bool_refused = bool(c.get("k_bool")) and st_c != "ok" and st_i != "ok"
+    malformed = malformed or bool_refused
     if not obs_close(o0, o0_after, level, 0):
         viol.append("copy-leaves-original")
     if st_c != st_i:
@@ -568,6 +604,8 @@ def run_case(c):
            f'{dims0.index(c["b"]) if c["b"] in dims0 else -1}/{k % 4}/{"neg" if k < 0 else "pos"}/{refk}/'
            f'{c.get("mapkind") if level == "field" else ""}/{c["dtype"] if level == "field" else ""}/'
            f'{c["regime"]}/{bool(c["subs"])}/{c.get("bad")}/{st}')
+    if bool_refused:
+        coq = None
     rec.update(obs=js(obs), coq=coq, key=key,
                size=(len(c["vals"]) if level == "field" else 0) + nd + abs(k), nontrivial=True)
     return rec
